@@ -302,6 +302,22 @@ theorem linkx_leave {L : Option Nat} {s : State} {r : Nat} (h : LinkX L (some r)
 theorem connClose_linkx {L X : Option Nat} {s : State} (c : Nat) (h : LinkX L X s) (si : SockInj s) :
     LinkX L X (connClose s c) := connClose_linkx_gen c h (Or.inl si)
 
+/-- putting a per-connection flag back (`getresponse` restores `_has_connected_to_proxy` after
+`http.client`'s `close()`) is invisible to `Link` -/
+theorem setConn_flag_linkx {L X : Option Nat} {s : State} (c : Nat) (b : Bool) (h : LinkX L X s) :
+    LinkX L X (setConn s c fun x => { x with proxyConnected := b }) := by
+  refine linkx_frame h ?_ (Nat.le_refl _) ?_
+  · intro c' cn' h1
+    right
+    simp only [setConn, List.getElem?_modify] at h1
+    cases hx : s.conns[c']? with
+    | none => simp [hx] at h1
+    | some x =>
+      simp only [hx, Option.map_eq_map, Option.map_some, Option.some.injEq] at h1
+      subst h1
+      refine ⟨x, rfl, ?_, Or.inl ?_⟩ <;> (split <;> rfl)
+  · intro r rs' h1 _; exact ⟨rs', h1, rfl, rfl, rfl⟩
+
 theorem putConn_linkx {L X : Option Nat} {s : State} (x : Option Nat) (h : LinkX L X s) (si : SockInj s) :
     LinkX L X (putConn s x).1 := by
   have h0 : LinkX L X (logEv s (.put x)) := linkx_log h rfl rfl
@@ -1491,13 +1507,17 @@ theorem getResponse_head_link {A : Nat → Attempt → Prop} {s s' : State} {c k
         right
         rw [(closeFp_fields2 sE sF.resps.length).1]; exact hcE
       split
-      · refine key _ (connClose_linkx c l2 (sinj s2 hp2 (fun cn' g => by rw [hc2] at g; cases g; exact Or.inr hksame)))
-          (hp2.connClose cn hc2 hpend) ?_
+      · refine key _ (setConn_flag_linkx c _ (connClose_linkx c l2 (sinj s2 hp2 (fun cn' g => by rw [hc2] at g; cases g; exact Or.inr hksame))))
+          ((hp2.connClose cn hc2 hpend).setConn _) ?_
         intro cn' g
-        have := connClose_conns s2 c
-        rw [this] at g
-        simp [List.getElem?_modify, hc2] at g
-        subst g; rfl
+        cases hx : (connClose s2 c).conns[c]? with
+        | none => simp [setConn, List.getElem?_modify, hx] at g
+        | some x =>
+          simp [setConn, List.getElem?_modify, hx] at g
+          have := connClose_conns s2 c
+          rw [this] at hx
+          simp [List.getElem?_modify, hc2] at hx
+          subst hx; subst g; rfl
       · exact key _ l2 hp2 (fun cn' g => by rw [hc2] at g; cases g; exact hpend)
     | ok hd =>
       simp only [hpre, Bool.false_eq_true, if_false] at hgr
@@ -2037,12 +2057,31 @@ theorem makeRequest_link {A : Nat → Attempt → Prop} {s s' : State} {c rid : 
       · exact Or.inl q
       · exact Or.inr ⟨l2, p2.sockInj', fun u rt m => readExc_not_noCleanup u rt m q⟩
     | resp r =>
-      cases ht
-      refine ⟨fun _ _ => ?_, by intro e he; cases he⟩
-      refine attach_link l2 (n2 r rfl) ?_
-      rcases hne with hne | hne
-      · right; simp [hne]
-      · exact Or.inl hne
+      dsimp only at ht
+      have p2 := getResponse_prov p1 hc hk hsk hin hA hgr
+      have l3 : Link none (setResp s2 r fun x => { x with conn := if rc.release then none else some c, hasPool := true }) := by
+        refine attach_link l2 (n2 r rfl) ?_
+        rcases hne with hne | hne
+        · right; simp [hne]
+        · exact Or.inl hne
+      have p3 := (setResp_safe s2 r (fun x => { x with conn := if rc.release then none else some c, hasPool := true })
+        (fun x => ⟨rfl, rfl, rfl, Or.inr ⟨rfl, rfl, rfl⟩⟩)).prov p2
+      unfold attachResp at ht
+      generalize (setResp s2 r fun x => { x with conn := if rc.release then none else some c, hasPool := true }) = t at ht l3 p3
+      dsimp only at ht
+      split at ht
+      · rename_i hcond
+        have hcl : respFpClosed t r = true := by
+          cases hq : respFpClosed t r with
+          | true => rfl
+          | false => simp [hq] at hcond
+        have l4 := releaseConn_linkx l3 p3.sockInj' hcl (by intro e; cases e)
+        generalize releaseConn t r = q at ht l4
+        obtain ⟨t2, o2⟩ := q
+        cases o2 with
+        | some e => cases ht; exact ⟨(by intro r hr; cases hr), fun _ _ => Or.inl l4⟩
+        | none => cases ht; exact ⟨fun _ _ => l4, by intro e he; cases he⟩
+      · cases ht; exact ⟨fun _ _ => l3, by intro e he; cases he⟩
   cases ek with
   | ok k =>
     obtain ⟨hst, cn, hc, hk, hcase⟩ := spK k rfl
